@@ -12,7 +12,8 @@ ID = "C15"
 GEN = ["hashutil", "uri"]
 RULE = ("cases: (a) every cap kind (9 file kinds x file/directory wrapper) with random keys, hashes and k/N/size "
         "(small, word boundaries, powers of ten, 1000-bit, a few 4300-digit = the widest Python prints), printed by the "
-        "implementation, re-parsed, compared with the model's printer and parser; (b) one mutation of such a string "
+        "implementation, re-parsed, compared with the model's printer and parser; (a') each of the 32 alphabet characters "
+        "as last character of the 128-bit field, of the 256-bit field and of LIT data of each length class; (b) one mutation of such a string "
         "(appended/inserted/deleted/replaced byte, wrong last base32 character, longer/shorter field, leading zero, sign, "
         "space, > 4300 digits, ro./imm./doubled prefix, case, MDMF extension, other kind's prefix, truncation, newline, NUL) "
         "or a random printable string, parsed with deep_immutable in {False, True}; (c) base32 b2a/a2b/"
@@ -61,6 +62,8 @@ def classify_noncanonical(s, printed, cls_name):
     sp, pp = s.split(b":"), printed.split(b":")
     if len(sp) == len(pp) and all(a == b or (a.isdigit() and b.isdigit() and a.lstrip(b"0") in (b.lstrip(b"0"), b)) for a, b in zip(sp, pp)):
         return "leading-zero"
+    if len(sp) == len(pp) and all(a == b or (len(a) == len(b) and a[:-1] == b[:-1]) for a, b in zip(sp, pp)):
+        return "base32-tail"
     return "other"
 
 
@@ -164,8 +167,8 @@ def run(ctx):
         add_parse(s, di, "corpus:" + name)
 
     # ---- (a) valid caps of every kind
-    nvalid = ctx.n(180, 1800)
-    huge_left = ctx.n(3, 24)
+    nvalid = ctx.n(180, 1200)
+    huge_left = ctx.n(3, 10)
     for i in range(nvalid):
         r = ctx.rng("valid", i)
         kind = U.FILE_KINDS[i % 9]
@@ -195,9 +198,27 @@ def run(ctx):
         finfo.append(("valid", s, False, back[:2]))
         ctx.case((s, False), kind="valid:" + ("dir-" if is_dir else "") + kind)
 
+    # ---- (a') every last character of every base32 field: the 32 alphabet characters (and a few others) in
+    # the final position of the 128-bit field, of the 256-bit field and of LIT data of every length class
+    r = ctx.rng("tails")
+    tail_caps = [U.make_cap("CHK", U.gen_fields(r, "SSK") + (3, 10, 1000), False), U.make_cap("SSKRO", U.gen_fields(r, "SSK"), True),
+                 U.make_cap("MDMFVerifier", U.gen_fields(r, "SSK"), False), U.make_cap("CHKVerifier", U.gen_fields(r, "SSK") + (1, 1, 0), True)]
+    tail_caps = tail_caps[:ctx.n(2, 4)]
+    for c in tail_caps:
+        parts = c.to_string().split(b":")
+        for idx in (2, 3):
+            for ch in U.B32 + b"A1=":
+                q = list(parts)
+                q[idx] = q[idx][:-1] + bytes([ch])
+                add_parse(b":".join(q), False, "tail-%s:%s" % ("128" if idx == 2 else "256", type(c).__name__))
+    for ln in range(0, ctx.n(6, 11)):
+        base = U.make_cap("LIT", (U.rbytes(r, ln),), ln % 2 == 1).to_string()
+        for ch in (U.B32 + b"A1=") if ln else b"a":
+            add_parse(base[:-1] + bytes([ch]) if ln else base + bytes([ch]), False, "tail-lit:%d" % (ln % 5))
+
     # ---- (b) mutated strings and random printable strings
-    nmut = ctx.n(420, 4200)
-    huge_left = ctx.n(3, 24)
+    nmut = ctx.n(420, 2500)
+    huge_left = ctx.n(3, 10)
     for i in range(nmut):
         r = ctx.rng("mut", i)
         kind, is_dir, fields, c = U.gen_cap(r)
@@ -248,7 +269,7 @@ def run(ctx):
 def base32_part(ctx):
     from allmydata.util import base32
     terms, info = [], []
-    n = ctx.n(90, 900)
+    n = ctx.n(90, 600)
     for i in range(n):
         r = ctx.rng("b32", i)
         ln = i if i <= 41 else r.choice([48, 55, 56, 57, 64, 80, 100, 129])
